@@ -47,6 +47,9 @@ def _reader_structure(p: Program, rep: Report):
         elif isinstance(f, ast.Attribute) and f.attr == "partition" and c.args and isinstance(c.args[0], ast.Constant):
             kv_sep = c.args[0].value
             maxsplit = 1
+        elif isinstance(f, ast.Attribute) and f.attr in ("rpartition", "rsplit", "rfind", "rindex") and c.args and isinstance(c.args[0], ast.Constant) and c.args[0].value == "=":
+            kv_sep = c.args[0].value
+            maxsplit = f"last ({f.attr})"  # split at the LAST '=': not 'the first only'
         elif isinstance(f, ast.Attribute) and f.attr == "strip":
             strip_args.append(ast.unparse(c.args[0]) if c.args else "")
         r = p.resolve_call(f_u, c)
@@ -99,7 +102,10 @@ def run(p: Program, rep: Report, tier: str) -> None:
             rep.violation("R16.1", construct(fn, text=f"split({pair_sep!r})"), where(fn), f"the reader splits the Cookie header on {pair_sep!r}, not on ';'")
         else:
             rep.undecide("R16.1", "pair separator of the reader not found")
-    if kv_sep != "=" or maxsplit != 1:
+    if kv_sep is None and maxsplit is None:
+        # no split / partition of a pair at '=' found at all (the header is tokenised by a regular expression, a scanner ...)
+        rep.undecide("R16.1", "the reader separates name from value in an idiom outside the table (no split / partition at '=')")
+    elif kv_sep != "=" or maxsplit != 1:
         rep.violation("R16.1", construct(fn, text=f"split({kv_sep!r}, {maxsplit!r})"), where(fn),
                       "the reader does not split name from value at the first '=' only (a value containing '=' is truncated)")
     else:
@@ -315,6 +321,10 @@ def run(p: Program, rep: Report, tier: str) -> None:
         rep.ok("R16.4", "serialised as the attribute pair ('max-age', self.max_age) joined with '='")
     elif pair_ma:
         rep.undecide("R16.4", "Max-Age is kept as an attribute pair ('max-age', self.max_age) but the code that joins pairs into text is not recognised")
+    elif not any(isinstance(c_, ast.Constant) and isinstance(c_.value, str) and "max-age" in c_.value.lower() for c_ in ast.walk(s.node)):
+        # the text 'max-age' does not occur in __str__ itself: the attribute is rendered elsewhere (per-attribute methods collected
+        # by a decorator, a table of renderers ...)
+        rep.undecide("R16.4", "Cookie.__str__ does not render the Max-Age attribute itself (idiom outside the table)")
     else:
         rep.violation("R16.4", construct(s, text="max-age line"), where(s), "Max-Age attribute is not serialised as max-age={self.max_age}")
     # delete_cookie
